@@ -40,7 +40,7 @@ func TestVerifReplay(t *testing.T) {
 		// the real generator and random values for the harness's own inputs; report the union of
 		// the labels reached.
 		n, _ := strconv.Atoi(rep)
-		vfFree = true
+		vfSampling = true
 		seen := map[string]bool{}
 		var union []string
 		t0 := time.Now()
